@@ -2,6 +2,7 @@ package rules
 
 import (
 	"fmt"
+	"regexp"
 	"go/ast"
 	"go/constant"
 	"go/types"
@@ -12,19 +13,19 @@ import (
 
 	"sbpfcheck/flow"
 	"sbpfcheck/load"
-	"sbpfcheck/origin"
 	"sbpfcheck/tables"
 )
 
 func init() {
 	Specs["C18"] = &Spec{
 		Level: "other",
-		Explanation: "Skeleton of the profile computation (the set equation itself is value-level and not claimed): names are collected from a map keyed by syscall number (numbers distinct) whose values come from the injective " +
-			"tables; the blacklist set is built from exactly the -b flag elements and a name is kept only on the not-member edge of its own lookup; allow-list names enter only on the `found` edge of a lookup in the " +
-			"architecture's name table and every input element is kept; the list handed to both emitters is the value sort.Strings was applied to, with the sort dominating the emitters and nothing writing in between; " +
-			"the YAML literal and the Go template both say default errno / one allow group over the list; emitted keys are keys the loader reads.",
-		Trusted:     []string{"go/ssa, dominators", "sort.Strings sorts in place", "text/template/parse", "yaml.v2 key conventions"},
-		Assumptions: []string{"exactness of the set algebra as a function of the inputs is value-level and not decided"},
+		Explanation: "The list handed to both emitters is computed as a set expression by abstract interpretation of the profiler (engine E7): every element-wise loop is summarised as `accumulator = init U { x in source | membership tests on x's path }`, " +
+			"helper functions are followed, `if len(flag) > 0` joins are resolved by the emptiness of the flag, and the result is compared with (F \\ BL) U (AL & ARCH) - found minus blacklisted plus allowed names that exist for the architecture - " +
+			"by a 16-row truth table over the membership bits of one arbitrary element (exact for all inputs, for disjoint flag sets as the property states). Duplicate-freeness (the list is rebuilt from a key set, or collected from " +
+			"syscalls with distinct numbers), validity of every name (found in the binary or in the table) and sortedness (sort.Strings dominates the emitter on the same value, nothing writes in between) are attributes of the same " +
+			"abstract value. The YAML literal and the Go template both say default errno / one allow group over the list; emitted keys are keys the loader reads; the YAML writers never put a document marker behind other output.",
+		Trusted:     []string{"go/ssa, dominators", "sort.Strings sorts in place", "text/template/parse", "yaml.v2 key conventions; yaml.Marshal output contains no document marker", "C12 (tables injective) and C16 (Name = table[Num]) for duplicate-freeness of the collected names"},
+		Assumptions: []string{"how go-ucfg / yaml.v2 parse a concrete emitted document (third-party run-time behaviour) is not analysed; only the document layout, keys and single-document condition are"},
 		Run:         runC18,
 	}
 }
@@ -183,268 +184,104 @@ func onlyLoopConds(b *ssa.BasicBlock) bool {
 	return true
 }
 
+// profileEmitters finds the functions that write a profile from a list of names: a []string parameter stored into the
+// Names field of a seccomp.SyscallGroup or into a field called SyscallNames (the template's data).
+func profileEmitters(p *load.Program) map[*ssa.Function]int {
+	out := map[*ssa.Function]int{}
+	for _, f := range p.SrcFuncs(load.PkgProfiler) {
+		if f.Parent() != nil {
+			continue
+		}
+		for k, prm := range f.Params {
+			if !isStringSlice(prm.Type()) || prm.Referrers() == nil {
+				continue
+			}
+			for _, ref := range *prm.Referrers() {
+				st, ok := ref.(*ssa.Store)
+				if !ok || st.Val != ssa.Value(prm) {
+					continue
+				}
+				fa, ok := st.Addr.(*ssa.FieldAddr)
+				if !ok {
+					continue
+				}
+				stt, ok := fa.X.Type().Underlying().(*types.Pointer).Elem().Underlying().(*types.Struct)
+				if !ok {
+					continue
+				}
+				switch stt.Field(fa.Field).Name() {
+				case "Names", "SyscallNames":
+					out[f] = k
+				}
+			}
+		}
+	}
+	return out
+}
+
 func runC18(e *Env) {
 	r := e.R
 	p := e.Host()
-	res := origin.NewResolver()
 	mainFn := p.Func(load.PkgProfiler, "main")
-	fb := p.Func(load.PkgProfiler, "filterBlacklist")
-	aw := p.Func(load.PkgProfiler, "addWhitelist")
-	if mainFn == nil || fb == nil || aw == nil {
-		r.Unknown("E3.sorted", "profiler", "", "main, filterBlacklist or addWhitelist not found")
+	if mainFn == nil {
+		r.Unknown("E7.seteq", "profiler", "", "main not found")
 		return
 	}
-	// ---------------- E3.sorted
-	sorts := callsTo(mainFn, "sort", "Strings")
-	var emitters []*ssa.Call
-	for _, n := range []string{"writeGoTemplate", "writeProfileConfig"} {
-		emitters = append(emitters, callsTo(mainFn, load.PkgProfiler, n)...)
-	}
-	r.Floor("E3.sorted(emitter calls)", len(emitters), 2)
-	if len(sorts) != 1 {
-		r.Bad("E3.sorted", "main/sort", p.Pos(mainFn.Pos()), fmt.Sprintf("expected exactly one sort.Strings call on the name list before the emitters, found %d: the emitted list is not guaranteed sorted", len(sorts)))
-	} else {
-		S := sorts[0].Call.Args[0]
-		for _, em := range emitters {
-			arg := em.Call.Args[len(em.Call.Args)-1]
-			key := "main/" + calleeName(em)
-			r.Check(arg == S, "E3.sorted", key+"/same-slice", p.Pos(em.Pos()), "the emitter receives the slice value that was sorted", "the emitter receives a list other than the one sort.Strings was applied to")
-			r.Check(flow.InstrDominates(sorts[0], em), "E3.sorted", key+"/after-sort", p.Pos(em.Pos()), "sort.Strings dominates the emitter", "the emitter can run without the list having been sorted")
-		}
-		// nothing else may receive S (a write between sort and emit) except readers
-		for _, ref := range *S.Referrers() {
-			c, ok := ref.(*ssa.Call)
-			if !ok || c == sorts[0] {
-				continue
-			}
-			isEm := false
-			for _, em := range emitters {
-				if em == c {
-					isEm = true
-				}
-			}
-			if isEm {
-				continue
-			}
-			if bi, ok := c.Call.Value.(*ssa.Builtin); ok && (bi.Name() == "len" || bi.Name() == "cap") {
-				continue
-			}
-			if flow.CalleeIs(c, "strings", "Join") {
-				continue
-			}
-			// another call with S after the sort
-			if flow.InstrDominates(sorts[0], c) || instrReaches(sorts[0], c) {
-				r.Bad("E3.sorted", "main/write-after-sort/"+calleeName(c), p.Pos(c.Pos()), "the sorted list is handed to another function between sorting and emitting")
-			}
-		}
-		// provenance of S
-		o := res.Of(S, nil, sorts[0])
-		var alts []*origin.O
-		var flat func(x *origin.O)
-		flat = func(x *origin.O) {
-			if x.Kind == origin.KPhi {
-				for _, a := range x.Args {
-					flat(a)
-				}
-				return
-			}
-			alts = append(alts, x)
-		}
-		flat(o)
-		for _, a := range alts {
-			good := false
-			desc := a.String()
-			if a.Kind == origin.KCall && a.Index == 0 && (a.Callee == fb || a.Callee == aw) {
-				good = true
-				desc = a.Callee.Name() + "(...)#0"
-			}
-			if a.Kind == origin.KCall && a.Name == "append" {
-				good = true // the dedup accumulation, checked below
-				desc = "dedup accumulation"
-			}
-			if a.Kind == origin.KUnknown && strings.HasPrefix(a.Name, "loop:") {
-				good = true
-				desc = "dedup accumulation"
-			}
-			if a.Kind == origin.KNil {
-				good = true
-				desc = "empty"
-			}
-			if !good {
-				desc = "other"
-			}
-			r.Check(good, "E3.sorted", "main/provenance/"+desc, p.Pos(sorts[0].Pos()), "the sorted list is the deduplicated list, optionally passed through filterBlacklist / addWhitelist", "the sorted list has an unexpected source: "+a.String())
-		}
-	}
-	// dedup: map keyed by number
-	nDedup := 0
-	for _, b := range mainFn.Blocks {
-		for _, in := range b.Instrs {
-			mu, ok := in.(*ssa.MapUpdate)
+	// ---------------- E7: the emitted list as a set expression
+	si := newSetInterp(p, load.PkgProfiler)
+	ems := profileEmitters(p)
+	r.Floor("E7.seteq(emitter functions)", len(ems), 2)
+	want := sxU(sxD(sxBase("F"), sxBase("BL")), sxI(sxBase("AL"), sxBase("ARCH")))
+	disjoint := func(env map[string]bool) bool { return !(env["BL"] && env["AL"]) }
+	nCalls := 0
+	var sets []*sx
+	for _, f := range p.SrcFuncs(load.PkgProfiler) {
+		for _, c := range flow.Calls(f) {
+			call, ok := c.(*ssa.Call)
 			if !ok {
 				continue
 			}
-			mt, ok := mu.Map.Type().Underlying().(*types.Map)
-			if !ok || !isNamed(mt.Elem(), load.PkgDisasm, "Syscall") {
+			k, isEm := ems[flow.Callee(call)]
+			if !isEm || k >= len(call.Call.Args) {
 				continue
 			}
-			nDedup++
-			ko := res.Of(mu.Key, nil, mu)
-			vo := res.Of(mu.Value, nil, mu)
-			good := ko.Kind == origin.KField && ko.Field.Name() == "Num" && origin.Equal(ko.Args[0], vo) && strings.Contains(vo.String(), "ExtractSyscalls")
-			r.Check(good, "E3.sorted", "main/dedup-by-number", p.Pos(mu.Pos()), "found syscalls are deduplicated in a map keyed by their own number", fmt.Sprintf("the dedup map is keyed by %s for value %s", ko, vo))
-			// names come from the values of that map
-			for _, b2 := range mainFn.Blocks {
-				for _, in2 := range b2.Instrs {
-					app := isAppend(valueOf(in2))
-					if app == nil {
-						continue
-					}
-					if st, ok := app.Type().Underlying().(*types.Slice); !ok || !types.Identical(st.Elem(), types.Typ[types.String]) {
-						continue
-					}
-					vals := appendedValues(app)
-					if len(vals) != 1 {
-						continue
-					}
-					ao := res.Of(vals[0], nil, app)
-					if ao.Kind == origin.KField && ao.Field.Name() == "Name" && ao.Args[0].Kind == origin.KRangeVal {
-						rv := ao.Args[0]
-						r.Check(rv.Args[0].Val == mu.Map || origin.Equal(rv.Args[0], res.Of(mu.Map, nil, mu)), "E3.sorted", "main/names-from-dedup", p.Pos(app.Pos()), "names are the Name fields of the dedup map's values: duplicate-free given injective tables (C12) and Name = table[Num] (C16)", "names are not collected from the dedup map")
-					}
-				}
+			nCalls++
+			key := load.FuncName(f) + "/" + calleeName(call)
+			fr, ok := si.frameOf(f, mainFn, 0)
+			if !ok {
+				r.Unknown("E7.seteq", key, p.Pos(call.Pos()), "the emitter is called from a function without a unique chain of call sites from main")
+				continue
 			}
+			arg := call.Call.Args[k]
+			c0 := si.eval(arg, fr)
+			if !c0.known() {
+				r.Unknown("E7.seteq", key, p.Pos(call.Pos()), "the list handed to the emitter could not be expressed over the base sets: "+c0.why)
+				continue
+			}
+			sets = append(sets, c0.set)
+			eq, cex := sxEqual(c0.set, want, disjoint)
+			r.Check(eq, "E7.seteq", key, p.Pos(call.Pos()),
+				fmt.Sprintf("the emitted list is %s, equal to (F \\ BL) U (AL & ARCH) for disjoint flag sets (16-row truth table over the base sets)", c0.set),
+				fmt.Sprintf("the emitted list is %s, which differs from (found minus blacklisted) plus (allowed that exist for the architecture): %s", c0.set, cex))
+			valid, _ := sxEqual(sxD(c0.set, sxU(sxBase("F"), sxBase("ARCH"))), sxEmpty, nil)
+			r.Check(valid, "E7.valid", key, p.Pos(call.Pos()), "every emitted name was found in the binary (named from the table, C16) or exists in the architecture's table",
+				"the emitted list can contain a name that is neither found in the binary nor in the architecture's table: the profile would not load")
+			r.Check(c0.dupfree, "E7.dupfree", key, p.Pos(call.Pos()), "the emitted list is free of duplicates (rebuilt from a key set, or collected from syscalls with distinct numbers)",
+				"the emitted list can contain a name twice (it is not rebuilt from a set and its source is not duplicate-free): the profile would be rejected as a duplicate syscall")
+			srt := c0.sorted || si.sortedAt(arg, call)
+			r.Check(srt, "E3.sorted", key, p.Pos(call.Pos()), "sort.Strings was applied to the emitted list, dominates the emitter, and nothing else receives the list in between",
+				"the emitter can run without the list having been sorted (or the list is handed to another function between sorting and emitting)")
 		}
 	}
-	r.Floor("E3.sorted(dedup map)", nDedup, 1)
-
-	// ---------------- E3.blacklist
-	{
-		var set *ssa.MakeMap
-		var lk *ssa.Lookup
-		for _, b := range fb.Blocks {
-			for _, in := range b.Instrs {
-				if l, ok := in.(*ssa.Lookup); ok && l.CommaOk {
-					if mm, ok := l.X.(*ssa.MakeMap); ok {
-						set, lk = mm, l
-					}
-				}
-			}
-		}
-		if set == nil {
-			r.Unknown("E3.blacklist", "filterBlacklist/set", p.Pos(fb.Pos()), "membership lookup in a locally built set not found")
-		} else {
-			nUpd := 0
-			for _, ref := range *set.Referrers() {
-				mu, ok := ref.(*ssa.MapUpdate)
-				if !ok {
-					continue
-				}
-				nUpd++
-				ko := res.Of(mu.Key, nil, mu)
-				good := ko.Kind == origin.KElem && ko.Args[0].Kind == origin.KGlobal && ko.Args[0].Global.Name() == "blacklist" && ko.Args[1].Kind == origin.KRangeKey && onlyLoopConds(mu.Block())
-				r.Check(good, "E3.blacklist", "filterBlacklist/set-elements", p.Pos(mu.Pos()), "the set holds exactly the elements of the -b flag (unconditional insert per element)", "the blacklist set is filled from "+ko.String()+" or conditionally")
-			}
-			r.Floor("E3.blacklist(set inserts)", nUpd, 1)
-			var found ssa.Value
-			for _, ref := range *lk.Referrers() {
-				if ex, ok := ref.(*ssa.Extract); ok && ex.Index == 1 {
-					found = ex
-				}
-			}
-			// result 0
-			for _, ret := range flow.Returns(fb) {
-				rs := flow.RetResults(ret)
-				apps, ok := accumulatorAppends(rs[0])
-				if !ok || len(apps) == 0 {
-					r.Bad("E3.blacklist", "filterBlacklist/kept", p.Pos(ret.Pos()), "the kept list is not an append-only accumulation")
-					continue
-				}
-				for _, app := range apps {
-					vals := appendedValues(app)
-					pol, known := flow.CondHolds(flow.DomConds(app.Block()), found)
-					sameElem := len(vals) == 1 && vals[0] == lk.Index
-					inputElem := false
-					if sameElem {
-						eo := res.Of(vals[0], nil, app)
-						inputElem = eo.Kind == origin.KElem && eo.Args[0].Kind == origin.KParam && eo.Args[0].Param == fb.Params[0]
-					}
-					r.Check(known && !pol && sameElem && inputElem, "E3.blacklist", "filterBlacklist/kept-guard", p.Pos(app.Pos()),
-						"an input name is kept only on the not-member edge of the lookup of that same name",
-						fmt.Sprintf("a name is appended to the kept list without `!found` of its own lookup (guard known=%v polarity=%v same element=%v input element=%v)", known, pol, sameElem, inputElem))
-				}
-			}
-		}
+	r.Floor("E7.seteq(emitter calls)", nCalls, 2)
+	if si.archVal == nil {
+		r.Unknown("E7.seteq", "profiler/found-syscalls", p.Pos(mainFn.Pos()), "no list derives from disasm.ExtractSyscalls")
 	}
-	// ---------------- E3.allow
-	{
-		var m *ssa.MakeMap
-		for _, b := range aw.Blocks {
-			for _, in := range b.Instrs {
-				if mm, ok := in.(*ssa.MakeMap); ok {
-					m = mm
-				}
-			}
-		}
-		if m == nil {
-			r.Unknown("E3.allow", "addWhitelist/set", p.Pos(aw.Pos()), "set not found")
-		} else {
-			nIn, nAllow := 0, 0
-			for _, ref := range *m.Referrers() {
-				mu, ok := ref.(*ssa.MapUpdate)
-				if !ok {
-					continue
-				}
-				ko := res.Of(mu.Key, nil, mu)
-				switch {
-				case ko.Kind == origin.KElem && ko.Args[0].Kind == origin.KParam && ko.Args[0].Param == aw.Params[1]:
-					nIn++
-					r.Check(onlyLoopConds(mu.Block()), "E3.allow", "addWhitelist/keep-input", p.Pos(mu.Pos()), "every element of the input list is kept (unconditional insert)", "an input element is inserted only conditionally: found syscalls could be dropped")
-				case ko.Kind == origin.KElem && ko.Args[0].Kind == origin.KGlobal && ko.Args[0].Global.Name() == "allowList":
-					nAllow++
-					// guard: found of Lookup(archInfo.SyscallNames, same key)
-					good := false
-					for _, cd := range flow.DomConds(mu.Block()) {
-						ex, ok := cd.V.(*ssa.Extract)
-						if !ok || ex.Index != 1 || !cd.Pol {
-							continue
-						}
-						l, ok := ex.Tuple.(*ssa.Lookup)
-						if !ok || l.Index != mu.Key {
-							continue
-						}
-						mo := res.Of(l.X, nil, l)
-						if mo.Kind == origin.KField && mo.Field.Name() == "SyscallNames" && mo.Args[0].StripConv().Kind == origin.KUn || (mo.Kind == origin.KField && mo.Field.Name() == "SyscallNames") {
-							good = true
-						}
-					}
-					r.Check(good, "E3.allow", "addWhitelist/guarded-by-arch-table", p.Pos(mu.Pos()), "an allow-list name enters only on the `found` edge of its lookup in archInfo.SyscallNames", "an allow-list name is added without checking that it exists for the architecture: an invalid name would be emitted and the profile would not load")
-				default:
-					r.Bad("E3.allow", "addWhitelist/other-insert", p.Pos(mu.Pos()), "the result set receives "+ko.String())
-				}
-			}
-			r.Floor("E3.allow(input inserts)", nIn, 1)
-			r.Floor("E3.allow(allow-list inserts)", nAllow, 1)
-			for _, ret := range flow.Returns(aw) {
-				rs := flow.RetResults(ret)
-				apps, ok := accumulatorAppends(rs[0])
-				good := ok && len(apps) > 0
-				for _, app := range apps {
-					vals := appendedValues(app)
-					if len(vals) != 1 {
-						good = false
-						continue
-					}
-					vo := res.Of(vals[0], nil, app)
-					if !(vo.Kind == origin.KRangeKey && vo.Args[0].Val == ssa.Value(m)) {
-						good = false
-					}
-				}
-				r.Check(good, "E3.allow", "addWhitelist/result-from-set", p.Pos(ret.Pos()), "the result is rebuilt from the key set of the map: duplicate-free", "the result list is not the key set of the membership map")
-			}
-		}
+	for _, n := range si.notes {
+		r.Note("%s", n)
 	}
 	// ---------------- E4.profile
+	checkSingleDocument(e, p)
 	checkProfileLiteral(e, p)
 	checkProfileTemplate(e, p)
 	// keys written for a profile are keys the loader reads
@@ -592,4 +429,149 @@ func checkProfileTemplate(e *Env, p *load.Program) {
 		}
 		r.Check(good, "E4.profile", "writeGoTemplate/SyscallNames", p.Pos(fn.Pos()), "the template parameter SyscallNames is the list parameter", "writeGoTemplate does not pass its list parameter as SyscallNames")
 	}
+}
+
+
+var fmtVerb = regexp.MustCompile(`%[-+# 0-9.*]*[a-zA-Z]`)
+
+// yamlMarkerLine: after replacing format verbs by line breaks (a marshalled document ends in one), does the constant
+// contain a line that is a YAML document marker?  Returns the byte offset of the first one, or -1.
+func yamlMarkerLine(text string) int {
+	t := fmtVerb.ReplaceAllStringFunc(text, func(v string) string { return strings.Repeat("\n", len(v)) })
+	off := 0
+	for _, line := range strings.SplitAfter(t, "\n") {
+		l := strings.TrimRight(line, "\r\n")
+		if l == "---" || strings.HasPrefix(l, "--- ") || l == "..." {
+			return off
+		}
+		off += len(line)
+	}
+	return -1
+}
+
+// checkSingleDocument: what the YAML writers of the profiler put on the output is one YAML document (a necessary
+// condition of "the emitted profile loads through the configuration path": the loader reads the first document only).
+// The marshalled pieces never contain a document marker (yaml.v2 Marshal, trusted); so no constant written next to
+// them may contain one - except at the very beginning of the output.
+func checkSingleDocument(e *Env, p *load.Program) {
+	r := e.R
+	isWriter := func(t types.Type) bool {
+		n, ok := t.(*types.Named)
+		return ok && n.Obj().Pkg() != nil && n.Obj().Pkg().Path() == "io" && strings.HasPrefix(n.Obj().Name(), "Write")
+	}
+	writers := map[*ssa.Function]int{}
+	for _, f := range p.SrcFuncs(load.PkgProfiler) {
+		if f.Parent() != nil {
+			continue
+		}
+		marshals := false
+		for _, c := range flow.Calls(f) {
+			if cal := flow.Callee(c); cal != nil && cal.Name() == "Marshal" && cal.Pkg != nil && strings.Contains(cal.Pkg.Pkg.Path(), "yaml") {
+				marshals = true
+			}
+		}
+		if !marshals {
+			continue
+		}
+		for k, prm := range f.Params {
+			if isWriter(prm.Type()) {
+				writers[f] = k
+			}
+		}
+	}
+	r.Floor("E4.profile(YAML writer functions)", len(writers), 2)
+	nWrites := 0
+	for f, k := range writers {
+		w := f.Params[k]
+		var writes []ssa.CallInstruction
+		for _, c := range flow.Calls(f) {
+			args := c.Common().Args
+			for _, a := range args {
+				if a == ssa.Value(w) {
+					writes = append(writes, c)
+					break
+				}
+				if mi, ok := a.(*ssa.MakeInterface); ok && mi.X == ssa.Value(w) {
+					writes = append(writes, c)
+					break
+				}
+			}
+			if c.Common().IsInvoke() && c.Common().Value == ssa.Value(w) {
+				writes = append(writes, c)
+			}
+		}
+		for _, c := range writes {
+			nWrites++
+			// constant strings among the arguments (format strings, literal text), also inside the variadic array
+			var consts []string
+			var collect func(v ssa.Value, depth int)
+			collect = func(v ssa.Value, depth int) {
+				if depth > 4 {
+					return
+				}
+				if s, ok := flow.ConstString(v); ok {
+					consts = append(consts, s)
+					return
+				}
+				switch x := v.(type) {
+				case *ssa.MakeInterface:
+					collect(x.X, depth+1)
+				case *ssa.Convert:
+					collect(x.X, depth+1)
+				case *ssa.Slice:
+					if al, ok := x.X.(*ssa.Alloc); ok {
+						for _, ref := range *al.Referrers() {
+							if ia, ok := ref.(*ssa.IndexAddr); ok {
+								for _, r2 := range *ia.Referrers() {
+									if st, ok := r2.(*ssa.Store); ok && st.Addr == ssa.Value(ia) {
+										collect(st.Val, depth+1)
+									}
+								}
+							}
+						}
+					}
+				}
+			}
+			for _, a := range c.Common().Args {
+				collect(a, 0)
+			}
+			for _, text := range consts {
+				off := yamlMarkerLine(text)
+				if off < 0 {
+					continue
+				}
+				// harmless only as the very first bytes of the whole output
+				first := off == 0
+				for _, o := range writes {
+					if o != c && !flow.InstrDominates(c, o) {
+						first = false
+					}
+				}
+				if first {
+					for _, g := range p.SrcFuncs(load.PkgProfiler) {
+						var mine, others []ssa.CallInstruction
+						for _, c2 := range flow.Calls(g) {
+							if cal := flow.Callee(c2); cal == f {
+								mine = append(mine, c2)
+							} else if _, isW := writers[cal]; isW {
+								others = append(others, c2)
+							}
+						}
+						for _, m := range mine {
+							for _, o := range others {
+								if instrReachesNoRepeat(o, m, nil) {
+									first = false
+								}
+							}
+						}
+					}
+				}
+				r.Check(first, "E4.profile", load.FuncName(f)+"/single-document", p.Pos(c.Pos()),
+					"a document marker is written only as the very first bytes of the output",
+					fmt.Sprintf("%s writes a YAML document marker (constant %q) behind other output: the file then holds several documents, the loader reads only the first one and does not find the `seccomp` key of the profile", load.FuncName(f), text))
+			}
+		}
+	}
+	r.Count("writes of the YAML writers examined", nWrites)
+	r.Floor("E4.profile(writes of the YAML writers)", nWrites, 2)
 }
